@@ -116,3 +116,58 @@ def shrink_table_case(case, row_keys=(), col_keys=()):
                 c['rows'] = [list(r) for r in rows]
                 c['rows'][i][j] = 0
                 yield c
+
+
+# ---------------------------------------------------------------------------------------------------------
+# class H4 (DESIGN section 14): edits that change the content but keep a hash the library could validate a memo by
+# ---------------------------------------------------------------------------------------------------------
+def adler_collide_name(name):
+    """A different string of the same length with the same zlib.adler32 *wherever it is embedded in a longer text*:
+    (+1, -2, +1) on three consecutive characters keeps both running sums ('bdb' -> 'cbc').  None when no position
+    of `name` allows it (needs three consecutive characters whose shifted versions stay plain letters/digits)."""
+    def ok(ch):
+        return ch.isalnum() and ord(ch) < 128
+    for i in range(len(name) - 2):
+        a, b, c = name[i], name[i + 1], name[i + 2]
+        for sa, sb, sc in ((1, -2, 1), (-1, 2, -1)):
+            try:
+                a2, b2, c2 = chr(ord(a) + sa), chr(ord(b) + sb), chr(ord(c) + sc)
+            except ValueError:
+                continue
+            if ok(a) and ok(b) and ok(c) and ok(a2) and ok(b2) and ok(c2):
+                return name[:i] + a2 + b2 + c2 + name[i + 3:]
+    return None
+
+
+def fixed_hash_text(objs, attrs, rows):
+    """the text FormalContext.hash_fixed feeds to zlib.adler32 (rows as 0/1 lists)"""
+    return str(list(objs)) + str(list(attrs)) + str([[bool(v) for v in r] for r in rows])
+
+
+def adler_collide_rows(objs, attrs, rows, limit=200000):
+    """A DIFFERENT 0/1 table of the same shape whose FormalContext.hash_fixed() equals that of `rows` (same names);
+    None if the bounded search finds none.  Deterministic (enumeration order of itertools.product)."""
+    import zlib
+    n, m = len(rows), len(rows[0]) if rows else 0
+    if n * m == 0 or n * m > 20:
+        return None
+    target = zlib.adler32(fixed_hash_text(objs, attrs, rows).encode())
+    k = 0
+    for t in all_tables(n, m):
+        k += 1
+        if k > limit:
+            return None
+        if t != [list(r) for r in rows] and zlib.adler32(fixed_hash_text(objs, attrs, t).encode()) == target:
+            return t
+    return None
+
+
+def pyhash_collide_value(v):
+    """A different number with the same CPython hash: -1 <-> -2 (ints and floats).  None otherwise."""
+    if isinstance(v, bool):
+        return None
+    if isinstance(v, int) and v in (-1, -2):
+        return -3 - v
+    if isinstance(v, float) and v in (-1.0, -2.0):
+        return -3.0 - v
+    return None
